@@ -124,6 +124,22 @@ CHECKS["C02"] = dict(
     technique="TLC trace validation against an exact-integer TLA+ contract for closed-form streams; TLC model checking of the oracle",
 )
 
+CHECKS["C05"] = dict(
+    category="model_checking",
+    text="Every file produced by generated programs - synchronous writer, threaded writer (real threads), jls_copy destinations - is decoded from its "
+         "bytes by tools/lifter.py (written from format.h only, own CRC-32C) into a chunk list, and TLC evaluates on it JlsFormat!WellFormed (file header "
+         "fields and length = size; forward walk by payload_length reaches END exactly at the end; backward walk by payload_prev_length; every header and "
+         "payload CRC; 8-byte alignment; zero padding; item lists doubly linked, homogeneous in (list, tag, signal, level), one head and one tail each; track "
+         "heads = first DATA/INDEX chunk per level; every INDEX immediately followed by its SUMMARY with the same timestamp; every FSR / annotation / UTC "
+         "index entry leading to the chunk of the expected kind, signal, level and timestamp with the level's stride) and JlsFormat!Decodes (definitions as "
+         "normalised by SigDef.tla, stored samples by candidate runs, annotations, UTC, user data = the content submitted through the API). "
+         "JlsLinks.tla model-checks the writer's cached-tail list maintenance and head-table updates against the same Links/Heads predicates.",
+    design_ref="DESIGN.md section 6 C05, section 12",
+    note="Trusted: TLC, tools/lifter.py, harness/crc_ref.c. SUMMARY values are judged by C02/C15 (here: structure). Repaired files are judged with the same "
+         "predicates by the C03/C19 check.",
+    technique="TLC evaluation of a TLA+ format specification on independently decoded files (trace validation) + TLC model checking of the list maintenance design",
+)
+
 NOT_YET = {}
 
 
